@@ -25,6 +25,18 @@ CHECKS = {
              "and counts concrete at API level (raw-column obligation covers them symbolically).",
         technique="CrossHair symbolic execution (z3) of real wn._add/_queries/_core over an executable SQL model",
         ref='4 C01'),
+    'C04': dict(
+        text="Bounded symbolic model checking of scoping: (a) containment - every entity met in a two-step "
+             "walk over the public API of Wordnet(lexicon, expand) belongs to the selection (or, in default "
+             "mode, to the family of the entity it was reached from); (b) non-interference (2-safety) - "
+             "the transcript is identical with and without any lexicon outside the selection and its "
+             "expand set, incl. an unselected extension of a selected lexicon and another version of a "
+             "dependency; (c) frame condition per SQL statement with symbolic row owners for 14 query "
+             "functions. Lexicon/expand arguments and the absent lexicon are symbolic.",
+        note=NOTE_COMMON + DB_NOTE + "Universe of 8 small lexicons. Tags/pronunciations are excluded while "
+             "finding C04-tags (no owner column) is open.",
+        technique="CrossHair symbolic execution (z3) over an executable SQL model; 2-safety and frame conditions",
+        ref='4 C04'),
     'C06': dict(
         text="Bounded symbolic model checking of the real add_lexical_resource / remove with the point "
              "of failure as a symbolic integer: the k-th SQL call or progress callback raises (Exception "
